@@ -568,6 +568,7 @@ package larking
 //@   ensures [literal-accepted C16] old(l.pos) < len(l.input) && ((65 <= l.input[old(l.pos)] && l.input[old(l.pos)] <= 90) || (97 <= l.input[old(l.pos)] && l.input[old(l.pos)] <= 122))
 //@        && old(l.len) < 64 ==> err == nil
 //@   oracle !(l_old.pos < len(l_old.input) && verifASCIILetter(l_old.input[l_old.pos]) && l_old.len < 64) || err == nil
+//@   ensures [wildcards-accepted C16] old(l.pos) < len(l.input) && l.input[old(l.pos)] == 42 && old(l.len) < 64 ==> err == nil
 
 //@ func lexSegments serves C16 C09
 //@   returns (err)
